@@ -6,7 +6,7 @@ import z3
 
 from pyvc import alg
 from pyvc.alg import Num
-from pyvc.interp import Interp, Model, Obj, Path, PathInfeasible, PyRaise, SBool, VC, explore
+from pyvc.interp import Interp, Model, Obj, Path, PathEnd, PathInfeasible, PyRaise, SBool, VC, explore
 from pyvc.source import FuncInfo, Repo, Unsupported
 
 
@@ -31,8 +31,9 @@ class Registry:
                 return True
         return False
 
-    def loop_invariant(self, I, node):
-        return self.loop_invariants.get((I.call_stack[-1] if I.call_stack else None, getattr(node, "lineno", None)))
+    def loop_invariant(self, I, node, ordinal):
+        """loop contracts are keyed by (function qualname, ordinal of the loop inside the function in source order)"""
+        return self.loop_invariants.get((I.call_stack[-1] if I.call_stack else None, ordinal))
 
     def copy(self):
         r = Registry()
@@ -75,7 +76,7 @@ def verify(ctx, repo, registry, prefix, qualnames, harness, expect_covers=(), ma
     try:
         for p in explore(lambda P: harness(_mk(repo, P, registry), *funcs), max_paths=max_paths, timeout_ms=timeout_ms):
             n_paths += 1
-            if p.outcome[0] == "ok":
+            if p.outcome[0] in ("ok", "cut"):
                 n_ok += 1
             reached |= set(p.ghost.get("covers", ()))
             for vc in p.vcs:
@@ -169,3 +170,22 @@ def assume(I, *conds):
 
 def zz(I, x):
     return I.P.z(x)
+
+
+def loop_cut(I, node, fr, name, havoc, inv, variant=None):
+    """Hoare-style cut of a `while` loop: inv holds on entry; from an arbitrary state satisfying inv and the guard one
+    iteration re-establishes inv (that path then ends); execution continues from inv and not guard."""
+    from pyvc.interp import _Break, _Continue
+    I.P.check("%s.inv-on-entry" % name, inv(I, fr), "loop invariant holds when the loop is reached", kind="post")
+    havoc(I, fr)
+    g = inv(I, fr)
+    I.P.assume(g)
+    if I.P.branch(I.truth(I.eval(node.test, fr))):
+        cover(I, name + ".body")
+        try:
+            I.exec_block(node.body, fr)
+        except (_Break, _Continue):
+            raise Unsupported("break/continue inside a cut loop")
+        I.P.check("%s.inv-preserved" % name, inv(I, fr), "one iteration from an arbitrary invariant state re-establishes the invariant", kind="post")
+        raise PathEnd()
+    cover(I, name + ".exit")
